@@ -26,7 +26,7 @@ PROP = {
                     "ranges in merges/filters/conditional formats are full rectangles (both corners, both axes)"],
     "partial_clauses": ["move_range/copy_range: correspondence + reference-grid oracle only (no Lean refinement theorem yet)",
                         "annotation lists (merges, comments, CF, filter): per-range theorem + correspondence; defined names and drawings under structural edits belong to C08 / are outside the model",
-                        "grid upper bound: inserting next to the limit overflows the grid (known finding C07-grid-overflow)",
+                        "grid upper bound: inserting next to the limit overflows the grid (known finding C07-grid-overflow; assessed after the formula-reference analogue was repaired in fae7c2b and left recorded: drop-vs-refuse is a design decision and the repair is not small, see why_not_fixed in known_findings.json)",
                         "Worksheet::*_from_other_sheet helpers still shift the sheet's own cells (outside the property's quantifier; not exercised)"],
     "technique": "Lean 4 refinement to a reference grid on top of the C10 invariant; differential dumps + independent reference-grid oracle",
 }
